@@ -15,8 +15,11 @@
 typedef long I_t;
 typedef __int128 WIDE_t;
 #else
+#ifndef WIDE_BITS
+#define WIDE_BITS (2 * I_BITS)
+#endif
 typedef signed __CPROVER_bitvector[I_BITS] I_t;
-typedef signed __CPROVER_bitvector[2 * I_BITS] WIDE_t;
+typedef signed __CPROVER_bitvector[WIDE_BITS] WIDE_t;
 #endif
 #if U_BITS == 64
 typedef unsigned long U_t;
@@ -105,6 +108,8 @@ static inline double cm_ceil(double x)
   return ((double)t < x) ? (double)(t + 1) : (double)t;
 }
 
+#define CM_LT_PAIR(a, b) ((a).first < (b).first || ((a).first == (b).first && (a).second < (b).second))
+#define CM_EQ_PAIR(a, b) ((a).first == (b).first && (a).second == (b).second)
 #define CM_LT_SCALAR(a, b) ((a) < (b))
 #define CM_EQ_SCALAR(a, b) ((a) == (b))
 
@@ -140,6 +145,7 @@ static inline double cm_ceil(double x)
   static inline void NAME##_insert_range(struct NAME *v, T *it, T *b, T *e) { __CPROVER_assert(it == &v->e[0] + v->n, "cmodel: vector::insert(range) only modelled at end()"); \
     __CPROVER_assert(b <= e, "vector::insert(range): valid range"); U_t k = (U_t)(e - b); CM_CAP_ASSERT(v->n + k <= CAP); \
     for (U_t i = 0; i < CAP; i++) if (i < k) v->e[v->n + i] = b[i]; v->n = v->n + k; }                       \
+  static inline void NAME##_pop_front(struct NAME *v) { __CPROVER_assert(v->n > 0, "queue::pop on empty queue"); for (U_t i = 0; i + 1 < CAP; i++) if (i + 1 < v->n) v->e[i] = v->e[i + 1]; v->n = v->n - 1; } \
   static inline void NAME##_swap(struct NAME *v, struct NAME *w) { struct NAME t = *v; *v = *w; *w = t; }
 
 /* ---------------------------------------------------------------- std::map<K,V> as a sorted array of pairs */
